@@ -1,11 +1,11 @@
 package c17
 
-// Directed minimal reproductions of the defects found by TestC17. They are not
-// part of the check (the unit runs ^TestC17$); run by hand:
+// Directed minimal reproductions of the three defects found by TestC17 (fixed
+// in /repo by c32fca5, b6c8119, 315089e), kept as regression tests of the unit:
 //
-//	/verif/vgo test -run TestReproC17 -count=1 -v ./c17/
+//	/verif/vgo test -run TestC17Regress -count=1 -v ./c17/
 //
-// Each prints what it observed and fails while the defect is present.
+// Each prints what it observed and fails when the defect is (again) present.
 
 import (
 	"errors"
@@ -17,11 +17,19 @@ import (
 
 	"github.com/nspcc-dev/neofs-node/pkg/local_object_storage/blobstor/fstree"
 	"github.com/nspcc-dev/neofs-node/pkg/local_object_storage/writecache"
+	"github.com/nspcc-dev/neofs-node/verifharness/ev"
 	"github.com/nspcc-dev/neofs-node/verifharness/faultstore"
 	"github.com/nspcc-dev/neofs-node/verifharness/stor"
 	oid "github.com/nspcc-dev/neofs-sdk-go/object/id"
 	"go.uber.org/zap"
 )
+
+// regress records the directed case in the evidence.
+func regress(name string) func() {
+	rec := ev.New("C17", "regress-"+name)
+	rec.Case(true, name, "regression")
+	return rec.Flush
+}
 
 func reproCache(t *testing.T, opts ...writecache.Option) (writecache.Cache, *faultstore.Store, string) {
 	dir, err := os.MkdirTemp("", "c17repro")
@@ -50,7 +58,8 @@ func reproCache(t *testing.T, opts ...writecache.Option) (writecache.Cache, *fau
 
 // put X; put X again while it is still cached; let it flush: the cache is empty
 // but still accounts len(X) bytes, so an object of exactly max-size is refused.
-func TestReproC17ReputDoubleCount(t *testing.T) {
+func TestC17RegressReputDoubleCount(t *testing.T) {
+	defer regress("reput-double-count")()
 	synctest.Test(t, func(t *testing.T) {
 		const M = 2000
 		wc, _, dir := reproCache(t, writecache.WithMaxCacheSize(M))
@@ -79,7 +88,8 @@ func TestReproC17ReputDoubleCount(t *testing.T) {
 // two objects above the batch threshold put within one scheduler tick: the
 // second one is never handed to a worker (the first is handed over twice) and
 // stays in the in-flight set for the life time of the cache instance.
-func TestReproC17TwoBigObjects(t *testing.T) {
+func TestC17RegressTwoBigObjects(t *testing.T) {
+	defer regress("two-big-objects-one-tick")()
 	synctest.Test(t, func(t *testing.T) {
 		wc, fs, dir := reproCache(t, writecache.WithMaxFlushBatchThreshold(300))
 		defer wc.Close()
@@ -103,7 +113,8 @@ func TestReproC17TwoBigObjects(t *testing.T) {
 }
 
 // same with the default threshold: maxFlushBatchCount+1 small objects.
-func TestReproC17BatchCountPlusOne(t *testing.T) {
+func TestC17RegressBatchCountPlusOne(t *testing.T) {
+	defer regress("batch-count-plus-one")()
 	synctest.Test(t, func(t *testing.T) {
 		wc, _, dir := reproCache(t, writecache.WithMaxFlushBatchCount(3))
 		defer wc.Close()
@@ -126,7 +137,8 @@ func TestReproC17BatchCountPlusOne(t *testing.T) {
 // back-off periods; after it is healthy again the big object is never flushed.
 // (Depends on Go's random select choice inside the scheduler: ~25 % per
 // back-off round, hence the long outage.)
-func TestReproC17LeakOnError(t *testing.T) {
+func TestC17RegressLeakOnError(t *testing.T) {
+	defer regress("leak-on-error")()
 	synctest.Test(t, func(t *testing.T) {
 		wc, fs, dir := reproCache(t, writecache.WithMaxFlushBatchThreshold(300))
 		defer wc.Close()
